@@ -68,7 +68,7 @@ RULE = ("api cases: a generated ranked rule system (3-7 variables: int/float/boo
         "66000-71000 one-person households per run whose group aggregate is expected by variable and by instance (oracle "
         "only, expected values in closed form).  A case is non-trivial when at least one slot "
         "was filled with a formula result (api) or at least one test passes and one fails (yaml); distinct by JSON text.  "
-        "Quick tier: 100 application instances (about 520 POST requests, half of them also answered by the Engine.v "
+        "Quick tier: 120 application instances (about 620 POST requests, half of them also answered by the Engine.v "
         "machine, and 130 listing requests) and 56 YAML files (about 670 tests)")
 TRUSTED = ["PARTIAL: HTTP (Flask, werkzeug), JSON encoding/decoding, dpath, PyYAML and pytest collection are glue "
            "exercised only by the correspondence run, no theorem is about them",
@@ -981,7 +981,7 @@ def gen_yaml_test(rng, sysj, vt, tbs, k):
 # ---------------------------------------------------------------------------------------
 
 def generate(rng, tier):
-    n_api, n_yaml = {"quick": (100, 56), "escalated": (120, 80), "thorough": (400, 250)}[tier]
+    n_api, n_yaml = {"quick": (120, 56), "escalated": (120, 80), "thorough": (400, 250)}[tier]
     cases = []
     with warnings.catch_warnings():
         warnings.simplefilter("ignore")
